@@ -6,6 +6,7 @@ package models
 
 import (
 	"bytes"
+	"math"
 	"net/url"
 	"sort"
 	"strings"
@@ -173,6 +174,20 @@ func TestSortStrings(t *testing.T) {
 		for k := range a {
 			if a[k] != b[k] {
 				t.Fatalf("sort.Strings: %q vs %q", a, b)
+			}
+		}
+	}
+}
+
+func TestMinMax(t *testing.T) {
+	vs := []float64{0, math.Copysign(0, -1), 1, -1, 0.5, math.Inf(1), math.Inf(-1), math.NaN(), math.MaxFloat64, -math.MaxFloat64, 5e-324, 3}
+	for _, x := range vs {
+		for _, y := range vs {
+			if a, b := math.Max(x, y), verifModel_math_Max(x, y); math.Float64bits(a) != math.Float64bits(b) && !(a != a && b != b) {
+				t.Fatalf("Max(%v,%v): %v vs %v", x, y, a, b)
+			}
+			if a, b := math.Min(x, y), verifModel_math_Min(x, y); math.Float64bits(a) != math.Float64bits(b) && !(a != a && b != b) {
+				t.Fatalf("Min(%v,%v): %v vs %v", x, y, a, b)
 			}
 		}
 	}
